@@ -140,6 +140,7 @@ func c01r1(c *an.Ctx) {
 	wf := a.obj("drpcwire", "(*Writer).WriteFrame")
 	fl := a.obj("drpcwire", "(*Writer).Flush")
 	wp := a.obj("drpcwire", "(*Writer).WritePacket")
+	wapi := writerAPI(c)
 	idField := a.field("drpcstream", "Stream", "id")
 	fns := must(c.P.SourceFuncs("drpcstream"))
 	var sites []lockSite
@@ -149,8 +150,15 @@ func c01r1(c *an.Ctx) {
 		an.Instrs(fn, func(in ssa.Instruction) {
 			if ci, ok := in.(ssa.CallInstruction); ok {
 				cc := ci.Common()
-				for _, m := range []*types.Func{wf, fl, wp} {
-					if an.IsCallTo(cc, m) {
+				ms := append(append([]*types.Func{wf, fl, wp}, wapi.Emit...), wapi.Flush...)
+				for i, m := range ms {
+					dup := false
+					for _, m2 := range ms[:i] {
+						if m2 == m {
+							dup = true
+						}
+					}
+					if !dup && an.IsCallTo(cc, m) {
 						root := an.PathOf(an.Recv(cc)).Root
 						sites = append(sites, lockSite{in, root, "call (*Writer)." + m.Name()})
 						nWriter++
@@ -226,17 +234,24 @@ func c01r2(c *an.Ctx) {
 
 	// sendPacketLocked: nil return only after WriteFrame then Flush.
 	spl := c.Fn("drpcstream", "(*Stream).sendPacketLocked")
-	wf := a.obj("drpcwire", "(*Writer).WriteFrame")
-	fl := a.obj("drpcwire", "(*Writer).Flush")
+	wapi := writerAPI(c)
+	c.Note("Writer methods that append a frame: %v; that leave the buffer flushed: %v", funcNames(wapi.Emit), funcNames(wapi.Flush))
+	c.Check(len(wapi.Emit) > 0 && len(wapi.Flush) > 0, "Writer | has an emitting and a flushing method", "-", "", "cannot find the writer's frame-appending / flushing methods")
 	flow := &an.Flow{Fn: spl, Inline: an.InlineSamePackage(spl), Init: []string{"0"}, Step: func(st string, in ssa.Instruction) []string {
 		ci, ok := in.(ssa.CallInstruction)
 		if !ok {
 			return nil
 		}
+		if _, isDefer := in.(*ssa.Defer); isDefer {
+			return nil
+		}
+		em, fl := wapi.emits(ci.Common()), wapi.flushes(ci.Common())
 		switch {
-		case an.IsCallTo(ci.Common(), wf):
+		case em && fl:
+			return []string{"WF"}
+		case em:
 			return []string{"W"}
-		case an.IsCallTo(ci.Common(), fl):
+		case fl:
 			if st == "W" || st == "WF" {
 				return []string{"WF"}
 			}
@@ -260,12 +275,49 @@ func c01r2(c *an.Ctx) {
 					}
 				}
 				c.Check(ok, key, c.At(ret), "after WriteFrame;Flush", "sendPacketLocked can return nil without having written and flushed the packet")
+			} else if call := flushResult(wapi, v); call != nil {
+				// the (wrapped) error of the flushing call itself: nil exactly when the flush succeeded
+				ok := true
+				for _, st := range res.After(call) {
+					if st != "WF" {
+						ok = false
+					}
+				}
+				c.Check(ok, key, c.At(ret), "the flush's own error, after the frame was written", "returns the error of a flush that does not follow the write of the packet")
 			} else {
 				c.Check(provablyNonNil(v, storeBlock(ret, v), 0), key, c.At(ret), "non-nil error", "may return nil before the packet was flushed: "+an.R(v))
 			}
 		}
 	}
 	c.Floor("sendPacketLocked returns", 1, n)
+}
+
+// flushResult: v is the error of a call to a flushing Writer method, possibly passed through an error-wrapping helper
+// that maps nil to nil (errs.Wrap).
+func flushResult(w *writerAPIInfo, v ssa.Value) *ssa.Call {
+	for i := 0; i < 3; i++ {
+		call, ok := an.Unwrap(v).(*ssa.Call)
+		if !ok {
+			return nil
+		}
+		if w.flushes(call.Common()) {
+			return call
+		}
+		arg, isWrap := errsWrapLike(call.Common())
+		if !isWrap {
+			return nil
+		}
+		v = arg
+	}
+	return nil
+}
+
+func funcNames(fs []*types.Func) []string {
+	var out []string
+	for _, f := range fs {
+		out = append(out, f.Name())
+	}
+	return out
 }
 
 func describeRet(v ssa.Value) string {
